@@ -215,6 +215,11 @@ def gen_cases(rng, tier, info):
         b_cmds.append("(col_name_valid %s)" % X.enc_str(s))
     allc = cmds + col_cmds + b_cmds
     cases = [Case("c07-%d" % i, allc[i:i + 500]) for i in range(0, len(allc), 500)]
+    # the gate itself, through the package: INSERT / UPDATE statements with valid and invalid values, rejected batches,
+    # one UPDATE assigning a column several times (every assignment must be valid; the last one is stored)
+    import pkggen as G
+    for name, h in G.scenario_histories(rng):
+        cases.append(Case("scn-" + name, h.cmds, ("pkg",)))
     info.update({"category_string_pairs": n_pairs, "column_value_pairs": len(col_cmds), "builder_values": len(b_cmds)})
     return cases
 
@@ -234,7 +239,13 @@ def oracle(ctx):
     guid_col = enc_col(mkcol(("str", 38), False, cat="Guid"))
     lang_col = enc_col(mkcol(("str", 0), False, cat="Language"))
     follow = []
+    import pkggen as G
     for c, outs in zip(ctx.cases, ctx.impl_out):
+        if "pkg" in c.tags:
+            for f in G.walk(c.cmds, outs):
+                bad.append(f)
+                break
+            continue
         for cmd, o in zip(c.cmds, outs):
             if o in ("panic", "abort", "timeout"):
                 bad.append({"what": "validator panicked", "cmds": [cmd], "impl": o})
